@@ -334,12 +334,23 @@ def gen_case(r, tier):
                 ops.append({"op": "reload"})
             elif x < 0.92:
                 ops.append({"op": "retarget"})
-            elif x < 0.96:
+            elif x < 0.95:
                 ops.append({"op": "set_scale", "factor": r.choice([0.3, 0.5, 2.0])})
+            elif x < 0.965:
+                ops.append({"op": "interrupt", "j": r.randint(0, 12), "n": r.randint(2, 6)})
+            elif x < 0.985:
+                ops.append({"op": "snapshot"})
+                ops.append({"op": "sample", "n": r.randint(2, 12)})
+                ops.append({"op": "rollback"})
             else:
                 ops.append({"op": "reinitialize"})
         if not any(o["op"] in ("sample", "warmup") for o in ops):
             ops.append({"op": "sample", "n": r.randint(3, 25)})
+        if r.random() < 0.15:
+            ops = [{"op": "sample", "n": r.randint(2, 8)}, {"op": "snapshot"}, {"op": "sample", "n": r.randint(3, 15)},
+                   {"op": "rollback"}] + ops
+        if r.random() < 0.2:
+            ops.append({"op": "interrupt", "j": r.randint(0, 12), "n": r.randint(2, 6)})
         if ops[-1]["op"] not in ("sample", "warmup"):
             ops.append({"op": "sample", "n": r.randint(2, 10)})
     else:
@@ -478,6 +489,33 @@ class MHRun:
                 with core.setup_stream(self.setup_seed):
                     s.reinitialize()
                 o.history = "after_reinitialize"
+            elif k == "interrupt":
+                # the user's target raises (Ctrl-C, transient failure) at an arbitrary evaluation inside a transition;
+                # the same sampler object is then used again: no transition was completed by the aborted step, so the
+                # state and its cached density/gradient must still belong together
+                pr = refs["p_logd"] if FAMILY[self.kind] != "pcn" else refs["p_forward"]
+                pr = o.refs["p_logd"] if FAMILY[self.kind] != "pcn" else o.refs["p_forward"]
+                pr.fault_plan[pr.calls + 1 + int(op["j"])] = "raise"
+                o.begin(s.current_point)
+                try:
+                    s.sample(int(op["n"]))
+                except core.SimCrash:
+                    ctx.hit("transition_interrupted")
+                    o.history = "after_interrupt"
+                finally:
+                    o.active = False
+                    pr.fault_plan.clear()
+            elif k == "snapshot":
+                self.saved_state = s.get_state()
+                import copy as _copy
+                self.saved_state = {"metadata": dict(self.saved_state["metadata"]),
+                                    "state": {kk: _copy.deepcopy(vv) for kk, vv in self.saved_state["state"].items()}}
+            elif k == "rollback":
+                # an earlier state is restored into the SAME sampler object after the chain has moved on
+                if getattr(self, "saved_state", None) is not None:
+                    s.set_state(self.saved_state)
+                    o.history = "after_rollback"
+                    ctx.fault("state_rollback")
             elif k == "set_scale":
                 # hand-tuning: the public scale attribute is re-assigned between runs
                 new = float(op["factor"]) * np.asarray(s.scale, float)
